@@ -55,7 +55,7 @@ func runNBRandom(w *rt.World, res *hx.Result, kind int) *hx.Violation {
 		clLinger[c] = hx.F(4) // tcp: 0 = keep the connection open (idle) until after Stop; 1 = connect and send nothing, stay connected
 		clTCP[c] = hx.G(3)
 		clAbort[c] = hx.F(6)
-		clRunt[c] = hx.F(48) // tcp: < 8: a frame too short to be a request (length prefix 1..11) is sent before request number (value % 4)
+		clRunt[c] = hx.F(48) // tcp: < 16: a frame too short to be a request (length prefix 1..11) is sent before request number (value % 4)
 		clWindow[c] = hx.F(4)
 		clN[c] = 1 + hx.G(maxReqs)
 	}
@@ -173,7 +173,7 @@ func runNBRandom(w *rt.World, res *hx.Result, kind int) *hx.Violation {
 			idc = idKeep
 		}
 		cl.runtAt, cl.runtLen = -1, 0
-		if cl.tcp && clRunt[c] < 8 && clAbort[c] != 0 && !cl.silent && !cl.paced && !cl.stall && len(cl.reqs) > 0 {
+		if cl.tcp && clRunt[c] < 16 && clAbort[c] != 0 && !cl.silent && !cl.paced && !cl.stall && len(cl.reqs) > 0 {
 			cl.runtAt = clRunt[c] % 4 % len(cl.reqs)
 			cl.runtLen = 1 + (clRunt[c]*5+c)%11
 			rt.Probe(PTCPRunt)
